@@ -11,6 +11,23 @@ namespace SpecVerif.Lang
 
 abbrev P (α : Type) := List Tok → Option (α × List Tok)
 
+/-- the punctuation character `c` -/
+def expect (c : Char) : List Tok → Option (List Tok)
+  | .p d :: r => if d = c then some r else none
+  | _ => none
+
+def identP : P String
+  | .ident s :: r => some (s, r)
+  | _ => none
+
+def strP : P String
+  | .str s :: r => some (s, r)
+  | _ => none
+
+def int_ : P Nat
+  | .int n :: r => some (n, r)
+  | _ => none
+
 /-- zero or more `p`, as long as `p` succeeds -/
 def many {α : Type} (p : P α) : Nat → P (List α)
   | 0, _ => none
@@ -25,45 +42,38 @@ def fieldName : P String
   | .kw k :: r => if k.isName then some (k.text, r) else none
   | _ => none
 
-/-- base_type -/
+/-- base_type: IDENT | IDENT '.' IDENT | ANY | MESSAGE -/
 def baseType : P BaseT
-  | .ident a :: .p '.' :: .ident b :: r => some (.ref a b, r)
-  | .ident a :: r => some (.name a, r)
-  | .kw .any :: r => some (.any, r)
-  | .kw .message :: r => some (.anyMessage, r)
+  | .ident a :: r =>
+    match (expect '.' r).bind identP with
+    | some (b, r') => some (.ref a b, r')
+    | none => some (.name a, r)
+  | .kw k :: r =>
+    if k = .any then some (.any, r) else if k = .message then some (.anyMessage, r) else none
   | _ => none
 
 /-- type: base_type | '[' ']' base_type -/
-def type_ : P Ty
-  | .p '[' :: .p ']' :: r => (baseType r).map fun (b, r') => (.list b, r')
-  | r => (baseType r).map fun (b, r') => (.base b, r')
-
-def int_ : P Nat
-  | .int n :: r => some (n, r)
-  | _ => none
+def type_ : P Ty := fun ts =>
+  match (expect '[' ts).bind (expect ']') with
+  | some r => (baseType r).map fun (b, r') => (.list b, r')
+  | none => (baseType ts).map fun (b, r') => (.base b, r')
 
 /-- field / method_field: field_name type INTEGER -/
 def field : P Field := fun ts =>
-  match fieldName ts with
-  | none => none
-  | some (n, r) =>
-    match type_ r with
-    | none => none
-    | some (t, r) =>
-      match int_ r with
-      | none => none
-      | some (g, r) => some (⟨n, t, g⟩, r)
+  (fieldName ts).bind fun (n, r) =>
+  (type_ r).bind fun (t, r) =>
+  (int_ r).bind fun (g, r) => some (⟨n, t, g⟩, r)
 
 /-- the part of `fields` / `method_fields` after the first element: (sep field)* (sep)? -/
 def fieldsRest (sep : Char) : Nat → P (List Field)
   | 0, _ => none
-  | fuel + 1, .p c :: r =>
-    if c = sep then
+  | fuel + 1, ts =>
+    match expect sep ts with
+    | none => some ([], ts)
+    | some r =>
       match field r with
       | some (x, r') => (fieldsRest sep fuel r').map fun (xs, r'') => (x :: xs, r'')
       | none => some ([], r)                 -- semi_opt / comma_opt
-    else some ([], .p c :: r)
-  | _ + 1, r => some ([], r)
 
 /-- fields semi_opt / method_field_list: (field)? (sep field)* (sep)? -/
 def fields (sep : Char) (fuel : Nat) : P (List Field) := fun ts =>
@@ -73,164 +83,134 @@ def fields (sep : Char) (fuel : Nat) : P (List Field) := fun ts =>
 
 /-- enum_value: field_name '=' INTEGER ';' -/
 def enumValue : P EnumValue := fun ts =>
-  match fieldName ts with
-  | some (n, .p '=' :: .int v :: .p ';' :: r) => some (⟨n, v⟩, r)
-  | _ => none
+  (fieldName ts).bind fun (n, r) =>
+  (expect '=' r).bind fun r =>
+  (int_ r).bind fun (v, r) =>
+  (expect ';' r).bind fun r => some (⟨n, v⟩, r)
 
 /-- struct_field: field_name type ';' -/
 def sfield : P SField := fun ts =>
-  match fieldName ts with
-  | none => none
-  | some (n, r) =>
-    match type_ r with
-    | some (t, .p ';' :: r') => some (⟨n, t⟩, r')
-    | _ => none
+  (fieldName ts).bind fun (n, r) =>
+  (type_ r).bind fun (t, r) =>
+  (expect ';' r).bind fun r => some (⟨n, t⟩, r)
+
+/-- '(' method_field_list ')' -/
+def parenFields (fuel : Nat) : P (List Field) := fun ts =>
+  (expect '(' ts).bind fun r =>
+  (fields ',' fuel r).bind fun (fs, r) =>
+  (expect ')' r).bind fun r => some (fs, r)
+
+/-- '(' base_type ')' -/
+def parenBase : P BaseT := fun ts =>
+  (expect '(' ts).bind fun r =>
+  (baseType r).bind fun (b, r) =>
+  (expect ')' r).bind fun r => some (b, r)
 
 /-- method_input -/
-def mInput (fuel : Nat) : P MInput
-  | .p '(' :: r =>
-    match baseType r with
-    | some (b, .p ')' :: r') => some (.type b, r')
-    | _ =>
-      match fields ',' fuel r with
-      | some (fs, .p ')' :: r') => some (.fields fs, r')
-      | _ => none
-  | _ => none
+def mInput (fuel : Nat) : P MInput := fun ts =>
+  match parenBase ts with
+  | some (b, r) => some (.type b, r)
+  | none => (parenFields fuel ts).map fun (fs, r) => (.fields fs, r)
 
 /-- method_output -/
-def mOutput (fuel : Nat) : P MOutput
-  | .p '(' :: r =>
-    match fields ',' fuel r with
-    | some (fs, .p ')' :: r') => some (.fields fs, r')
-    | _ => none
-  | r => (baseType r).map fun (b, r') => (.type b, r')
+def mOutput (fuel : Nat) : P MOutput := fun ts =>
+  match expect '(' ts with
+  | some _ => (parenFields fuel ts).map fun (fs, r) => (.fields fs, r)
+  | none => (baseType ts).map fun (b, r) => (.type b, r)
 
 /-- method_channel_in: '<' '-' type -/
-def chanInP : P Ty
-  | .p '<' :: .p '-' :: r => type_ r
-  | _ => none
+def chanInP : P Ty := fun ts =>
+  (expect '<' ts).bind fun r => (expect '-' r).bind fun r => type_ r
 
 /-- method_channel_out: type '-' '>' -/
 def chanOutP : P Ty := fun ts =>
-  match type_ ts with
-  | some (t, .p '-' :: .p '>' :: r) => some (t, r)
-  | _ => none
+  (type_ ts).bind fun (t, r) => (expect '-' r).bind fun r => (expect '>' r).bind fun r => some (t, r)
 
 /-- method_channel -/
-def mChan : P MChan
-  | .p '(' :: r =>
-    match chanInP r with
-    | some (i, .p ')' :: r') => some (.in_ i, r')
-    | some (i, .p ',' :: r') =>
-      match chanOutP r' with
-      | some (o, .p ')' :: r'') => some (.both i o, r'')
-      | _ => none
-    | some _ => none
-    | none =>
-      match chanOutP r with
-      | some (o, .p ')' :: r') => some (.out o, r')
-      | _ => none
-  | _ => none
+def mChan : P MChan := fun ts =>
+  (expect '(' ts).bind fun r =>
+  match chanInP r with
+  | some (i, r) =>
+    (match expect ',' r with
+     | some r => (chanOutP r).bind fun (o, r) => (expect ')' r).bind fun r => some (.both i o, r)
+     | none => (expect ')' r).bind fun r => some (.in_ i, r))
+  | none => (chanOutP r).bind fun (o, r) => (expect ')' r).bind fun r => some (.out o, r)
 
 /-- what follows method_input, including the closing ';' -/
-def mTail (fuel : Nat) : P MTail
-  | .p ';' :: r => some (.none, r)
-  | .kw .oneway :: .p ';' :: r => some (.oneway, r)
-  | ts =>
-    match mChan ts with
-    | some (c, .p ';' :: r) => some (.chan c none, r)
-    | some (c, r) =>
-      match mOutput fuel r with
-      | some (o, .p ';' :: r') => some (.chan c (some o), r')
-      | _ => none
-    | none =>
-      match mOutput fuel ts with
-      | some (o, .p ';' :: r) => some (.out o, r)
-      | _ => none
+def mTail (fuel : Nat) : P MTail := fun ts =>
+  match expect ';' ts with
+  | some r => some (.none, r)
+  | none =>
+    match ts with
+    | .kw .oneway :: r => (expect ';' r).bind fun r => some (.oneway, r)
+    | _ =>
+      match mChan ts with
+      | some (c, r) =>
+        (match expect ';' r with
+         | some r => some (.chan c none, r)
+         | none => (mOutput fuel r).bind fun (o, r) => (expect ';' r).bind fun r => some (.chan c (some o), r))
+      | none => (mOutput fuel ts).bind fun (o, r) => (expect ';' r).bind fun r => some (.out o, r)
 
 /-- method -/
 def method (fuel : Nat) : P Method := fun ts =>
-  match fieldName ts with
-  | none => none
-  | some (n, r) =>
-    match mInput fuel r with
-    | none => none
-    | some (i, r) =>
-      match mTail fuel r with
-      | none => none
-      | some (t, r) => some (⟨n, i, t⟩, r)
+  (fieldName ts).bind fun (n, r) =>
+  (mInput fuel r).bind fun (i, r) =>
+  (mTail fuel r).bind fun (t, r) => some (⟨n, i, t⟩, r)
+
+/-- '{' body '}' -/
+def braces {α : Type} (body : P α) : P α := fun ts =>
+  (expect '{' ts).bind fun r =>
+  (body r).bind fun (x, r) =>
+  (expect '}' r).bind fun r => some (x, r)
 
 /-- definition -/
 def definition (fuel : Nat) : P Def
-  | .kw .enum :: .ident n :: .p '{' :: r =>
-    match many enumValue fuel r with
-    | some (vs, .p '}' :: r') => some (.enum n vs, r')
-    | _ => none
-  | .kw .message :: .ident n :: .p '{' :: r =>
-    match fields ';' fuel r with
-    | some (fs, .p '}' :: r') => some (.message n fs, r')
-    | _ => none
-  | .kw .struct :: .ident n :: .p '{' :: r =>
-    match many sfield fuel r with
-    | some (fs, .p '}' :: r') => some (.struct n fs, r')
-    | _ => none
-  | .kw .service :: .ident n :: .p '{' :: r =>
-    match many (method fuel) fuel r with
-    | some (ms, .p '}' :: r') => some (.service false n ms, r')
-    | _ => none
-  | .kw .subservice :: .ident n :: .p '{' :: r =>
-    match many (method fuel) fuel r with
-    | some (ms, .p '}' :: r') => some (.service true n ms, r')
+  | .kw k :: ts =>
+    (identP ts).bind fun (n, r) =>
+    match k with
+    | .enum => (braces (many enumValue fuel) r).map fun (vs, r) => (.enum n vs, r)
+    | .message => (braces (fields ';' fuel) r).map fun (fs, r) => (.message n fs, r)
+    | .struct => (braces (many sfield fuel) r).map fun (fs, r) => (.struct n fs, r)
+    | .service => (braces (many (method fuel) fuel) r).map fun (ms, r) => (.service false n ms, r)
+    | .subservice => (braces (many (method fuel) fuel) r).map fun (ms, r) => (.service true n ms, r)
     | _ => none
   | _ => none
 
 /-- import: STRING | IDENT STRING -/
-def importP : P Import
-  | .str s :: r => some (⟨"", s⟩, r)
-  | .ident a :: .str s :: r => some (⟨a, s⟩, r)
-  | _ => none
+def importP : P Import := fun ts =>
+  match strP ts with
+  | some (s, r) => some (⟨"", s⟩, r)
+  | none => (identP ts).bind fun (a, r) => (strP r).bind fun (s, r) => some (⟨a, s⟩, r)
 
 /-- option: IDENT '=' STRING -/
-def optP : P Opt
-  | .ident n :: .p '=' :: .str v :: r => some (⟨n, v⟩, r)
-  | _ => none
+def optP : P Opt := fun ts =>
+  (identP ts).bind fun (n, r) => (expect '=' r).bind fun r => (strP r).bind fun (v, r) => some (⟨n, v⟩, r)
+
+/-- '(' p* ')' -/
+def parenMany {α : Type} (p : P α) (fuel : Nat) : P (List α) := fun ts =>
+  (expect '(' ts).bind fun r =>
+  (many p fuel r).bind fun (xs, r) =>
+  (expect ')' r).bind fun r => some (xs, r)
 
 def importsP (fuel : Nat) : P (List Import)
-  | .kw .import_ :: .p '(' :: r =>
-    match many importP fuel r with
-    | some (is, .p ')' :: r') => some (is, r')
-    | _ => none
-  | .kw .import_ :: _ => none
+  | .kw .import_ :: r => parenMany importP fuel r
   | ts => some ([], ts)
 
 def optionsP (fuel : Nat) : P (List Opt)
-  | .kw .options :: .p '(' :: r =>
-    match many optP fuel r with
-    | some (os, .p ')' :: r') => some (os, r')
-    | _ => none
-  | .kw .options :: _ => none
+  | .kw .options :: r => parenMany optP fuel r
   | ts => some ([], ts)
 
 /-- definitions up to the end of the input -/
 def definitions (fuel : Nat) : Nat → List Tok → Option (List Def)
   | 0, _ => none
   | _ + 1, [] => some []
-  | k + 1, ts =>
-    match definition fuel ts with
-    | some (d, r) => (definitions fuel k r).map (d :: ·)
-    | none => none
+  | k + 1, t :: ts => (definition fuel (t :: ts)).bind fun (d, r) => (definitions fuel k r).map (d :: ·)
 
 /-- file: imports options definitions -/
 def parseFile (ts : List Tok) : Option File :=
   let fuel := ts.length + 1
-  match importsP fuel ts with
-  | none => none
-  | some (is, r) =>
-    match optionsP fuel r with
-    | none => none
-    | some (os, r) =>
-      match definitions fuel fuel r with
-      | none => none
-      | some ds => some ⟨is, os, ds⟩
+  (importsP fuel ts).bind fun (is, r) =>
+  (optionsP fuel r).bind fun (os, r) =>
+  (definitions fuel fuel r).map fun ds => ⟨is, os, ds⟩
 
 end SpecVerif.Lang
